@@ -337,6 +337,16 @@ pub fn enumerate_faults(text: &str, root: &toml_edit::Item, single: Option<(u32,
         }
         let positions: Vec<(u32, bool)> = match single {
             Some(p) => vec![p],
+            None if text.len() > 2048 && n > 48 => {
+                // long documents (each execution re-parses the text): the fault position is sampled —
+                // the first 16, the last 16 and 16 evenly spaced callbacks — instead of enumerated
+                out.stats.inc("probe.positions_sampled_for_long_document");
+                let n = n.min(4096);
+                let mut ks: Vec<u32> = (0..16).chain(n - 16..n).chain((1..17).map(|i| i * (n / 17))).collect();
+                ks.sort();
+                ks.dedup();
+                ks.into_iter().flat_map(|k| [(k, false), (k, true)]).collect()
+            }
             None => (0..n.min(MAX_CALLBACKS)).flat_map(|k| [(k, false), (k, true)]).collect(),
         };
         if n > MAX_CALLBACKS {
